@@ -48,6 +48,7 @@ const char *ck_name[] = { "id", "ticket", "psk13" };
 struct Cred {
     int kind; Bytes ident; int issuer; Bytes secret; int ver; uint16_t suite; bool ems; int64_t issue_ms; int64_t life_ms;
     bool invalidated = false; int key_uid = -1; void *psk_snap = nullptr; int owner = -1;
+    bool established = true;   // false: the id was handed out in a ServerHello but the server has not (yet) verified the client's Finished of that handshake
 };
 struct TKey { std::array<uint8_t, 16> name; uint8_t sym[32], mac[32]; int symlen; int uid; };
 struct Server { sslKeys_t *keys = nullptr; std::vector<TKey> tk; };
@@ -250,6 +251,7 @@ bool expired(const Cred &cr, int64_t slack) { return now_ms() - cr.issue_ms > cr
 std::string why_not(const World &w, const Cred &cr, const Hello &h) {
     std::string k = std::string(":") + ck_name[cr.kind];
     if (cr.issuer != 0) return "resumed-with-foreign-ticket" + k;
+    if (!cr.established) return "resumed-unestablished-session";
     if (cr.kind != CK_ID && !has_key(w.A, cr.key_uid)) return "resumed-with-removed-ticket-key" + k;
     if (expired(cr, 1000)) return "resumed-expired" + k;
     if (cr.kind == CK_ID && cr.invalidated) return "resumed-after-fatal-alert";
@@ -261,7 +263,7 @@ std::string why_not(const World &w, const Cred &cr, const Hello &h) {
 
 std::string cred_str(const World &w, int x) {
     if (x < 0) return "none"; const Cred &c = w.creds[x];
-    return fmt("#%d[%s %s %04x ems=%d srv=%c age=%llds%s id=%s..]", x, ck_name[c.kind], ver_name(c.ver), c.suite, c.ems, c.issuer ? 'B' : 'A', (long long) ((now_ms() - c.issue_ms) / 1000), c.invalidated ? " INVALIDATED" : "", hex(c.ident.data(), c.ident.size(), 6).c_str());
+    return fmt("#%d[%s %s %04x ems=%d srv=%c age=%llds%s id=%s..]", x, ck_name[c.kind], ver_name(c.ver), c.suite, c.ems, c.issuer ? 'B' : 'A', (long long) ((now_ms() - c.issue_ms) / 1000), c.invalidated ? " INVALIDATED" : (c.established ? "" : " NOT-ESTABLISHED"), hex(c.ident.data(), c.ident.size(), 6).c_str());
 }
 
 // Common judgement of one attempt.  base = credential whose identifier was presented (possibly edited); never_sig != "" for attacker
@@ -269,6 +271,11 @@ std::string cred_str(const World &w, int x) {
 void judge(World &w, Attempt &a, int ci, int base, const Hello &h, const std::string &never_sig, bool binder_attack, bool honest, const std::string &what) {
     std::string ctx = fmt("%s -> %s (tentative=%d) base=%s now=%llds; history: %s", what.c_str(), out_name[a.outcome], a.tent, cred_str(w, base).c_str(), (long long) (now_ms() / 1000), w.trace.c_str());
     int z = -1;
+    if (a.tent && base >= 0 && !w.creds[base].established) {  // the server answered in resumed state for a session whose creating handshake it never saw finished
+        bool allzero = true; for (auto b : a.tent_secret) if (b) allzero = false;   // before the original's ClientKeyExchange the entry holds 48 zero bytes, afterwards the real secret
+        VF_FAIL(allzero ? "resumed-unestablished-session:zero-secret" : "resumed-unestablished-session:real-secret", "server entered resumption (secret %s.., handshake %s) of a session that was never established; %s",
+                hex(a.tent_secret.data(), a.tent_secret.size(), 8).c_str(), a.outcome == O_RESUMED ? "COMPLETED as resumed" : "did not complete", ctx.c_str());
+    }
     if (a.tent) {
         z = find_cred_by_secret(w, a.tent_secret);
         bool allzero = true; for (auto b : a.tent_secret) if (b) allzero = false;
@@ -629,6 +636,65 @@ static void prop(Tape &t, Ctx &c) {
                 w.note(e == 3 ? "RotateKeys" : (e == 2 ? "RemoveKey(newest)" : "RemoveKey(oldest)")); c.count(e == 3 ? "cmd:key-rotate" : "cmd:key-remove");
             }
             w.keys_changed = true; check_key_list(w, w.A);
+        }
+    }
+    // ---- tail phase (appended draws: tapes recorded before it existed are exhausted here and read zeros = skip).
+    // A full handshake (TLS <= 1.2, cache id) is stopped half way; its session id is already known to the client and to any eavesdropper.
+    // stop 0: the server's first flight reached the client, the client's second flight is withheld;  stop 1: ClientKeyExchange and
+    // ChangeCipherSpec reached the server, the client's Finished is withheld.  Then: attacks that present the id (all-zero secret / the real
+    // master secret), advancing, dropping without error, or completing the handshake (after which the id is an ordinary credential).
+    if (t.below(3) == 2) {
+        c.count("case:inflight");
+        int ci = (int) t.below(ncl); int ver = (int) t.below(2); auto cand = case_suites(w, ver); const Suite &su = cand[t.below(cand.size())];
+        int ems = t.chance(1, 4) ? -1 : 0; int stop = (int) t.below(2);
+        w.cl.emplace_back(); if (matrixSslNewSessionId(&w.cl.back().sid, NULL) < 0) throw Discard{};
+        int att = (int) w.cl.size() - 1;                    // the attacker's own client
+        Client &k = w.cl[ci]; matrixSslClearSessionId(k.sid); k.cred = -1; k.dirty = true;
+        Hello h{ ver, ems, { su.id }, false };
+        std::unique_ptr<Pair> ap(new Pair); Pair &p = *ap;
+        { Config cc, sc; cc.client = true; sc.client = false; sc.versions = { TLS13, TLS12, TLS11 }; cc.versions = { ver }; cc.suites = h.suites; cc.ems = ems; cc.sid = k.sid;
+          cc.keys = w.ckeys; sc.keys = w.A.keys; cc.auth = sc.auth = w.auth; cc.entropy_stream = 1 + (w.estream % 6) * 2; sc.entropy_stream = cc.entropy_stream + 1; w.estream++;
+          if (p.s.open(sc) < 0 || p.c.open(cc) < 0) throw Discard{}; }
+        w.registrations++;
+        p.shuttle(p.c, p.s, 0, (size_t) -1); p.shuttle(p.s, p.c, 1, (size_t) -1); p.c.pump_out();
+        Bytes flight2 = p.c.take_wire(); auto recs = parse_records(flight2, false);
+        unsigned char idb[32]; int in = c14_session_id(p.c.ssl, idb); unsigned char sb[32]; int sn = c14_session_id(p.s.ssl, sb);
+        bool usable = p.c.alive() && p.s.alive() && !p.s.hs_complete() && recs.size() >= 3 && recs.back().type == 22 && in == 32 && sn == 32 && memcmp(idb, sb, 32) == 0;
+        w.note(fmt("InFlight(c%d,%s,%s,ems=%d,stop=%d)%s", ci, ver_name(ver), su.name, ems == 0, stop, usable ? "" : " [unusable]"));
+        if (!usable) c.count("inflight-unusable");
+        else {
+            Bytes upto_ccs(flight2.begin(), flight2.begin() + recs.back().off), fin(flight2.begin() + recs.back().off, flight2.end());
+            int cur = 0;   // 0: nothing of flight 2 delivered, 1: CKE+CCS delivered, 2: completed, 3: dropped
+            auto advance = [&]() { p.s.feed(upto_ccs); p.s.pump_out(); cur = 1; };
+            if (stop == 1) advance();
+            usable = p.s.alive() && !p.s.hs_complete();
+            Cred cr; cr.kind = CK_ID; cr.ident.assign(idb, idb + 32); cr.issuer = 0; unsigned char ms[48]; c14_master_secret(p.c.ssl, ms); cr.secret.assign(ms, ms + 48);
+            cr.ver = ver; cr.suite = (uint16_t) c14_cipher_id(p.s.ssl); cr.ems = c14_ems(p.s.ssl) != 0; cr.issue_ms = now_ms(); cr.life_ms = LIFE; cr.owner = ci; cr.established = false;
+            w.creds.push_back(cr); int x = (int) w.creds.size() - 1;
+            if (cur == 1) { unsigned char sm[48]; c14_master_secret(p.s.ssl, sm); VF_CHECK(memcmp(sm, ms, 48) == 0, "inflight-secret-mismatch", "client and server master secret differ after ClientKeyExchange; %s", w.trace.c_str()); }
+            size_t nsteps = 1 + t.below(3);
+            for (size_t i = 0; i < nsteps && usable; i++) {
+                unsigned act = (unsigned) t.below(6);
+                if (act <= 2 && cur < 2 || (act <= 2 && cur == 3)) {     // attack while in flight, or after the half-done connection was dropped without error
+                    bool zero = act != 1; Bytes sec = zero ? Bytes(48, 0) : w.creds[x].secret; Client &ak = w.cl[att];
+                    matrixSslClearSessionId(ak.sid); c14_sid_set_cipher(ak.sid, w.creds[x].suite); c14_sid_set_master(ak.sid, sec.data()); c14_sid_set_id(ak.sid, idb, 32); ak.cred = -1; ak.dirty = true;
+                    std::string kind = zero ? "Resume-unestablished-id-zero-secret" : "Resume-unestablished-id-real-secret";
+                    w.note(fmt("%s(c%d,%s,original %s)", kind.c_str(), att, cred_str(w, x).c_str(), cur == 0 ? "awaits ClientKeyExchange" : cur == 1 ? "awaits Finished" : "dropped"));
+                    do_attempt(att, x, matching_hello(w.creds[x]), kind, zero ? "resumed-unestablished-session:zero-secret" : "resumed-unestablished-session:real-secret", false, false, nullptr, kind);
+                } else if (act == 3 && cur == 0) { advance(); w.note("InFlight-advance(ClientKeyExchange+ChangeCipherSpec delivered)"); if (!p.s.alive() || p.s.hs_complete()) usable = false; }
+                else if (act == 4 && cur < 2) { ap.reset(); cur = 3; w.note("InFlight-drop(no error)"); c.count("inflight-dropped"); }
+                else if (cur < 2) {                               // complete it: from now on an ordinary credential
+                    if (cur == 0) advance();
+                    p.s.feed(fin); p.run();
+                    bool ok = p.s.hs_complete() && p.c.hs_complete() && p.s.alive() && p.c.alive() && matrixSslIsResumedSession(p.s.ssl) != PS_TRUE;
+                    w.note(fmt("InFlight-complete%s", ok ? "" : " [failed]")); c.count(ok ? "inflight-completed" : "inflight-complete-failed");
+                    if (!ok) { w.any_failure = true; usable = false; break; }
+                    w.creds[x].established = true; w.creds[x].issue_ms = w.creds[x].issue_ms; cur = 2; k.cred = x; k.dirty = false;
+                    unsigned char cid[32]; int cn = c14_sid_id(k.sid, cid); VF_CHECK(cn == 32 && memcmp(cid, idb, 32) == 0, "client-server-session-id-differ", "completed in-flight handshake: client stored another id; %s", w.trace.c_str());
+                    Attempt a; a.p = std::move(ap); a.outcome = O_FULL; keep_or_close(w, t, a, ci, x);
+                    if (t.coin()) honest_resume(t.coin() ? ci : att, x);   // by its owner or by any client that holds id + secret
+                }
+            }
         }
     }
     c.count(did_nontrivial ? "case:nontrivial" : "case:trivial");
